@@ -55,6 +55,10 @@ class Stream:
                 start = len(self.items)
                 body = b[1] if len(b) > 1 else 'x' * (PLEN - 2)
                 it = [M0, M1] + [M0 if ch == 'a' else M1 if ch == 'u' else X(('p', len(self.packets), i)) for i, ch in enumerate(body)]
+                # the three bytes after the marker are what every Waveshare packet carries there (frame type 01, format 02, framework 01)
+                for j_, c_ in ((2, 1), (3, 2), (4, 1)):
+                    if it[j_][0] == 'x':
+                        it[j_] = ('c', c_)
                 self.items += it
                 self.packets.append((start, tuple(it)))
                 self.dirty_before.append(dirty)
@@ -142,6 +146,9 @@ def streams(tier):
     out.append(('clean', [N('x' * 130), P]))
     out.append(('clean', [N('x' * 260 + 'a'), P, P]))
     out.append(('clean', [N('x' * 700)]))
+    out.append(('clean', [N('xxa' + 'x' * 400)]))            # one AA early in marker-free noise must not pin what follows it
+    out.append(('clean', [N('a' + 'x' * 300 + 'a' + 'x' * 300), P]))
+    out.append(('clean', [N('xu' + 'x' * 400), P]))
     out.append(('clean', [N(('x' * 9 + 'a') * 40)]))          # every 10-byte read ends in AA
     out.append(('clean', [N(('x' * 19 + 'a') * 25), P]))
     out.append(('dirty', [N(('au' + 'x' * 11) * 40), P, P]))
